@@ -43,6 +43,7 @@ def sources(tier, seed):
     out += [(src, "gnest") for _, src in gnest.programs(3)]
     out += [(src, "gtype") for _, src in gnest.type_programs()]
     out += [(src, "gstmt") for _, src in gnest.stmt_programs()]
+    out += [(src, "gident") for _, src in gnest.ident_programs()]
     n_rel = 1500 if tier == "quick" else 8000
     for prof in ("core", "window", "project"):
         out += [(grel.random_program_text(rng, prof), "grel") for _ in range(n_rel // 3)]
